@@ -1161,7 +1161,9 @@ def normalize(modules) -> Report:
     n2.expand_keyed_arms(modules, known, rep)
     n2.split_tuple_locals(modules, known, rep)
     n2.propagate_fresh_locals(modules, known, rep)
+    n2.expand_augassign(modules, known, rep)
     n2.thread_constant_flags(modules, known, rep)
+    n2.thread_none_sentinels(modules, known, rep)
     n2.resolve_conditional_joins(modules, known, rep)
     seen = set()
     rep.kept = [k for k in rep.kept if not (k in seen or seen.add(k))]
